@@ -129,9 +129,17 @@ int main(int argc, char** argv) {
     if (!ctx.want(id)) return;
     ctx.begin_case(id);
     // warm-up (documented protocol) and solo baselines in this process
+    // warm-up in this (main) thread, then "run alone" = the same call as the only thread under the scheduler, i.e. in a
+    // fresh thread exactly like in the concurrent executions (thread-local caches start empty in both)
     std::vector<uint64_t> solo(sc.ops.size());
-    for (size_t t = 0; t < sc.ops.size(); ++t) solo[t] = L.ops[sc.ops[t]].run();
-    for (size_t t = 0; t < sc.ops.size(); ++t) if (L.ops[sc.ops[t]].run() != solo[t]) { ctx.violation(id, "the call is not deterministic when run alone twice"); ctx.end_case(true); return; }
+    for (size_t t = 0; t < sc.ops.size(); ++t) L.ops[sc.ops[t]].run();
+    for (size_t t = 0; t < sc.ops.size(); ++t) {
+      uint64_t v1 = 0, v2 = 0;
+      sched_run({[&] { v1 = L.ops[sc.ops[t]].run(); }}, {});
+      sched_run({[&] { v2 = L.ops[sc.ops[t]].run(); }}, {});
+      solo[t] = v1;
+      if (v1 != v2) { ctx.violation(id, "the call is not deterministic when run alone twice"); ctx.end_case(true); return; }
+    }
     const uint64_t h0 = lsm_canon_hash();
     std::vector<uint64_t> got(sc.ops.size());
     std::vector<std::function<void()>> bodies;
